@@ -158,9 +158,9 @@ func checkC08(p *Program, r *Report) {
 	r.extra["discharge_methods"] = hows
 	r.Floor("C08.bounds", 130)
 	r.Floor("C08.loops", 30)
-	r.Floor("C08.recursion", 3)
+	r.Floor("C08.recursion", 2)
 	r.Floor("C08.alloc", 6)
-	r.Floor("C08.external", 4)
+	r.Floor("C08.external", 2)
 }
 
 func dedupStrings(in []string) []string {
